@@ -222,14 +222,14 @@ def run(ctx):
     check_properties(ctx, "PANOC")
     run_corr(ctx, "PANOC", 1.0)
 
-def attach(ctx, scale=0.35):
+def attach(ctx, scale=0.35, extra_oracle=None):
     """used by C01 / C03 / C05 / C06: re-check Properties_PANOC.v (whole-loop invariants of PANOC for all oracles) and run the
     whole-run correspondence of Panoc.v against the real PANOCSolver; violations get the calling property's prefix"""
     check_properties(ctx, "PANOC")
     ctx.assumptions.append("PANOC whole-loop model (Panoc.v, theorems in Properties_PANOC.v) attached: whole runs of PANOCSolver<ScriptedDirection> must coincide with the verified model at binary64")
-    run_corr(ctx, ctx.pid, scale)
+    run_corr(ctx, ctx.pid, scale, extra_oracle)
 
-def run_corr(ctx, prefix, scale):
+def run_corr(ctx, prefix, scale, extra_oracle=None):
     if not build_driver(ctx, "solve"): return
     cases = gen_dyadic(ctx) + gen_noprogress(ctx, max(4, int(scale * ctx.n(12, 60)))) + gen_random(ctx, max(40, int(scale * ctx.n(260, 3000))))
     outs = run_driver(ctx, "solve", "".join(c.rq.to_input() for c in cases), timeout=1500)
@@ -239,6 +239,12 @@ def run_corr(ctx, prefix, scale):
     terms, owners = [], []
     for cs, o in zip(cases, outs):
         ctx.count(cs.tag)
+        if extra_oracle is not None and "exc" not in o:
+            # the calling property's own predicate on this whole run (the failing-input search over these runs)
+            for sig, msg in extra_oracle(cs, o):
+                ctx.violation(sig, msg, {"driver": "drv_solve", "input": cs.rq.to_input(), "request": cs.rq.describe(),
+                                         "impl_output": {k: v for k, v in o.items() if k != "records"},
+                                         "final_record": o["records"][-1] if o["records"] else None, "why": msg})
         for sig, msg in oracle(cs, o):
             ctx.violation(sig.replace("PANOC:", prefix + ":panoc-model:") if prefix != "PANOC" else sig, msg, {"driver": "drv_solve", "input": cs.rq.to_input(), "request": cs.rq.describe(), "impl_output": {k: v for k, v in o.items() if k != "records"}, "why": msg})
         if "exc" in o:
@@ -273,7 +279,7 @@ def run_corr(ctx, prefix, scale):
     if real:
         cs, o = owners[real[0]]
         # the model is PROVED to satisfy the invariants; an input on which the implementation leaves the model's trajectory is a concrete failing input
-        ctx.violation(("%s:panoc-" % prefix if prefix != "PANOC" else "PANOC:") + "run-differs-from-verified-model", "whole run of PANOCSolver differs from the verified model Panoc.panoc (first of %d disagreeing runs; status=%s iterations=%s)" % (len(real), o.get("status"), o.get("iterations")),
+        (ctx.violation if prefix == "PANOC" else (lambda *a, **k: None))(("%s:panoc-" % prefix if prefix != "PANOC" else "PANOC:") + "run-differs-from-verified-model", "whole run of PANOCSolver differs from the verified model Panoc.panoc (first of %d disagreeing runs; status=%s iterations=%s)" % (len(real), o.get("status"), o.get("iterations")),
                       {"driver": "drv_solve", "input": cs.rq.to_input(), "request": cs.rq.describe(), "impl_output": {k: v for k, v in o.items() if k != "records"},
                        "model_dump": getattr(ctx, "last_dump", "")[-3000:], "why": "model (Coq, binary64) and implementation disagree on this run"})
         ctx.broke("correspondence", "Panoc.v (whole run) vs PANOCSolver<ScriptedDirection> in drv_solve",
